@@ -208,6 +208,33 @@ let run_deq id params toks =
     Printf.printf "%s %s\n" id (String.concat "|" (obs @ (if cut then ["?"] else [])))
   | _ -> ()
 
+let run_set id toks =
+  let n x = ni (int_of_string x) in
+  let parse t = match String.split_on_char ':' t with
+    | ["ins"; k] -> Some (TIns (n k), `Plain)
+    | ["er"; k] -> Some (TErase (n k), `Plain)
+    | ["find"; k] -> Some (TFind (n k), `Find)
+    | ["cnt"; k] -> Some (TFind (n k), `Count)
+    | ["clr"] -> Some (TClear, `Plain)
+    | ["cpy"] -> Some (TCopy, `Plain)
+    | ["sel"; r] -> Some (TSel (r <> "0"), `Plain)
+    | _ -> None in
+  let rec split acc = function
+    | [] -> (List.rev acc, false)
+    | t :: r -> (match parse t with Some o -> split (o :: acc) r | None -> (List.rev acc, true)) in
+  let (ops, cut) = split [] toks in
+  let res = set_run (fun k -> k) (List.map fst ops) in
+  let show ((((r, sz), cts), _), kind) =
+    let rs = match r, kind with
+      | MRKV (k, _), `Find -> string_of_int (int_of_nat k)
+      | MREnd, `Find -> "end"
+      | MRKV _, `Count -> "1"
+      | MREnd, `Count -> "0"
+      | _, _ -> show_mret r in
+    Printf.sprintf "%s/%d/%s" rs (int_of_nat sz) (show_list (List.map fst cts)) in
+  let obs = List.map show (List.combine res (List.map snd ops)) in
+  Printf.printf "%s %s\n" id (String.concat "|" (obs @ (if cut then ["?"] else [])))
+
 let () =
   let ic = if Array.length Sys.argv > 1 then open_in Sys.argv.(1) else stdin in
   iter_lines ic (fun line ->
@@ -218,5 +245,6 @@ let () =
        | "m" -> run_map id (int_list params) toks
        | "s" -> run_str id toks
        | "d" -> run_deq id (int_list params) toks
+       | "st" -> run_set id toks
        | _ -> ())
     | _ -> ())
